@@ -39,9 +39,10 @@ type (
 	ECond  struct{ C, A, B Expr }
 	QVar   struct{ Name, Type string }
 	EQuant struct {
-		Forall bool
-		Vars   []QVar
-		Body   Expr
+		Forall   bool
+		Vars     []QVar
+		Body     Expr
+		Triggers [][]Expr // optional explicit patterns: forall k int :: { s[k] } body
 	}
 	ETypeArg struct{ Type string } // a type used as an argument: dyn(x, *SyncLogger)
 )
@@ -216,14 +217,27 @@ func (ps *parser) expr() Expr {
 			for _, n := range names {
 				vars = append(vars, QVar{n, typ})
 			}
-			if ps.accept(";") {
+			if ps.accept(";") || ps.accept(",") {
 				continue
 			}
 			break
 		}
 		ps.expect("::")
+		var trigs [][]Expr
+		for ps.accept("{") {
+			var group []Expr
+			for {
+				group = append(group, ps.expr())
+				if ps.accept(",") {
+					continue
+				}
+				break
+			}
+			ps.expect("}")
+			trigs = append(trigs, group)
+		}
 		body := ps.expr()
-		return &EQuant{Forall: t.text == "forall", Vars: vars, Body: body}
+		return &EQuant{Forall: t.text == "forall", Vars: vars, Body: body, Triggers: trigs}
 	}
 	return ps.iff()
 }
